@@ -173,6 +173,13 @@ DocShift(p, v) == ShiftOf(PFile(p), v)
 \* modified, else the last line of the range; GitHub only accepts modified lines, a problem without one is shown on
 \* the first modified line of the file (written here from the documentation/changelog, not from makeComments)
 ClassOf(p) == <<PRep(p), PSev(p), PFile(p), PFirst(p), PLast(p)>>
+DocLine(plat, K, v) ==
+  LET f == K[3]
+      lo == K[4] + ShiftOf(f, v)
+      hi == K[5] + ShiftOf(f, v)
+      m == Modified(f, v) \cap (lo..hi)
+      ln == IF m = {} THEN hi ELSE SetMax(m) IN
+  IF plat = "github" /\ ln \notin Modified(f, v) /\ Modified(f, v) # {} THEN SetMin(Modified(f, v)) ELSE ln
 AtItsLine(plat, p, v, c) == c.path = PFile(p) /\ c.line = DocLine(plat, ClassOf(p), v)
 CoversProblem(plat, p, v, c) == AtItsLine(plat, p, v, c) /\ p \in c.text.m
 SameComment(a, b) == a.path = b.path /\ a.line = b.line /\ a.text = b.text
